@@ -1081,3 +1081,313 @@ func ruleNoAcquireAfterClose(r *Report) {
 		r.OK(rule, rule+"/none", cl.Pos(), "no method registers handles after construction")
 	}
 }
+
+// R-acquire-failure-closes: a function that obtains a closable and then fails must not drop it: on every path from the
+// successful acquisition to an error return there is a Close (direct or deferred) of the value or of the owner it was
+// put into. The success path is owner-locals' business; this rule is about the error exits, where the value (or the
+// half-built owner) is simply forgotten and the descriptor / mapping is left to the finalizers.
+func ruleAcquireFailureCloses(r *Report, pkgs []string) {
+	const rule = "acquire-failure-closes"
+	r.Rule(rule, 10, "for every closable a function obtains from a creating call: every error return that is reachable after the successful acquisition passes a Close (direct, deferred, or of the struct the value was stored into) — a failed constructor / loader / rotation leaves nothing open")
+	p := r.P
+	for _, pk := range pkgs {
+		for _, fn := range p.FuncsOfPkg(pk) {
+			if fn.Synthetic != "" || fn.Parent() != nil {
+				continue
+			}
+			idx := errorResultIndex(fn)
+			if idx < 0 {
+				continue
+			}
+			eachInstr(fn, func(s Site) {
+				c, ok := s.Instr.(*ssa.Call)
+				if !ok {
+					return
+				}
+				var vals []ssa.Value
+				if tup, ok := c.Type().(*types.Tuple); ok {
+					for _, rf := range *c.Referrers() {
+						if ex, ok := rf.(*ssa.Extract); ok && hasClose(tup.At(ex.Index).Type()) && !isErrorType(ex.Type()) {
+							vals = append(vals, ex)
+						}
+					}
+				} else if hasClose(c.Type()) && !isErrorType(c.Type()) {
+					vals = append(vals, c)
+				}
+				if len(vals) == 0 {
+					return
+				}
+				ck := CalleeKey(c)
+				if ck == "" {
+					if _, f, _, ok := loadOfField(c.Call.Value); ok && strings.Contains(strings.ToLower(f), "factory") {
+						ck = "factory:" + f
+					} else {
+						return
+					}
+				} else if strings.HasSuffix(ck, ".currentSSTable") || strings.HasPrefix(ck, "builtin.") || !creates(p, c) {
+					return
+				} else if !acquiresHandle(p, c) {
+					return // a constructor that opens nothing (the handle comes with Open): nothing to leak yet
+				}
+				for _, v := range vals {
+					key := uniqKey(r, fmt.Sprintf("%s/%s/%s", rule, FuncKey(fn), ck))
+					r.Saw(fn)
+					// everything the value flows into: itself, cells, phis, interface conversions, and allocated structs it is stored in
+					holders := map[ssa.Value]bool{v: true}
+					changed := true
+					for changed {
+						changed = false
+						for _, f := range closuresOf(fn) {
+							eachInstr(f, func(t Site) {
+								mark := func(x ssa.Value) {
+									if x != nil && !holders[x] {
+										holders[x] = true
+										changed = true
+									}
+								}
+								switch y := t.Instr.(type) {
+								case *ssa.Phi:
+									for _, e := range y.Edges {
+										if holders[e] {
+											mark(y)
+										}
+									}
+								case *ssa.MakeInterface:
+									if holders[y.X] {
+										mark(y)
+									}
+								case *ssa.ChangeInterface:
+									if holders[y.X] {
+										mark(y)
+									}
+								case *ssa.ChangeType:
+									if holders[y.X] {
+										mark(y)
+									}
+								case *ssa.UnOp:
+									if y.Op == token.MUL && holders[y.X] {
+										mark(y)
+									}
+								case *ssa.Store:
+									if holders[y.Val] {
+										switch a := y.Addr.(type) {
+										case *ssa.Alloc:
+											mark(a)
+										case *ssa.FreeVar:
+											mark(a)
+										case *ssa.FieldAddr:
+											mark(a.X) // the struct now owns it
+										case *ssa.IndexAddr:
+											mark(a.X) // element of a (varargs) array or slice
+										}
+									}
+								case *ssa.FieldAddr:
+									if holders[y.X] {
+										mark(y)
+									}
+								case *ssa.Slice:
+									if holders[y.X] {
+										mark(y)
+									}
+								case *ssa.MakeClosure:
+									if cf, ok := y.Fn.(*ssa.Function); ok {
+										for i, b := range y.Bindings {
+											if i < len(cf.FreeVars) && holders[b] {
+												mark(cf.FreeVars[i])
+											}
+										}
+									}
+								case *ssa.Call:
+									if bi, isB := y.Call.Value.(*ssa.Builtin); isB && bi.Name() == "append" {
+										for _, a := range y.Call.Args {
+											if holders[a] {
+												mark(y)
+											}
+										}
+									}
+									// a module constructor that stores the argument into what it returns
+									if sc := y.Call.StaticCallee(); sc != nil && inModule(sc) {
+										for i, a := range y.Call.Args {
+											if holders[a] && storesParamIntoOwner(sc, i) {
+												mark(y)
+											}
+										}
+									}
+								case *ssa.Extract:
+									if holders[y.Tuple] && hasClose(y.Type()) {
+										mark(y)
+									}
+								}
+							})
+						}
+					}
+					// release sites in fn: Close calls / defers on a holder, handing over to an ownership-taking callee
+					releaseBlocks := map[*ssa.BasicBlock]int{} // block → smallest instruction index of a release
+					note := func(t Site) {
+						if cur, ok := releaseBlocks[t.Block]; !ok || t.Idx < cur {
+							releaseBlocks[t.Block] = t.Idx
+						}
+					}
+					covered := false // a defer registered before the acquisition closes whatever the holder cell contains
+					eachInstr(fn, func(t Site) {
+						// stored into a struct the caller holds (receiver / parameter): the caller's Close is responsible
+						if st, isSt := t.Instr.(*ssa.Store); isSt && holders[st.Val] {
+							if fa, isFA := st.Addr.(*ssa.FieldAddr); isFA && paramOrigin(fa.X) != nil {
+								note(t)
+							}
+						}
+						ci, ok := t.Instr.(ssa.CallInstruction)
+						if !ok {
+							return
+						}
+						cc := ci.Common()
+						name := ""
+						var recv ssa.Value
+						if cc.IsInvoke() {
+							recv, name = cc.Value, cc.Method.Name()
+						} else if sc := cc.StaticCallee(); sc != nil && sc.Signature.Recv() != nil && len(cc.Args) > 0 {
+							recv, name = cc.Args[0], sc.Name()
+						}
+						if name == "Close" && holders[recv] {
+							note(t)
+							return
+						}
+						// deferred / called function literal that closes a holder
+						if mc, ok := cc.Value.(*ssa.MakeClosure); ok {
+							if lit, ok := mc.Fn.(*ssa.Function); ok {
+								closes := false
+								eachInstr(lit, func(u Site) {
+									if c2, ok := u.Instr.(ssa.CallInstruction); ok {
+										cc2 := c2.Common()
+										var rv ssa.Value
+										nm := ""
+										if cc2.IsInvoke() {
+											rv, nm = cc2.Value, cc2.Method.Name()
+										} else if sc := cc2.StaticCallee(); sc != nil && sc.Signature.Recv() != nil && len(cc2.Args) > 0 {
+											rv, nm = cc2.Args[0], sc.Name()
+										}
+										if nm == "Close" && rv != nil && (holders[rv] || valueDependsOn(rv, func(x ssa.Value) bool { return holders[x] })) {
+											closes = true
+										}
+									}
+								})
+								// arguments passed to the literal
+								for i, a := range cc.Args {
+									if holders[a] && i < len(lit.Params) {
+										if releasedHow(p, lit, lit.Params[i]) != "" {
+											closes = true
+										}
+									}
+								}
+								if closes {
+									note(t)
+									if _, isDefer := t.Instr.(*ssa.Defer); isDefer && precedes(t, s) {
+										covered = true
+									}
+								}
+							}
+							return
+						}
+						if ownershipTaking(CalleeKey(ci)) {
+							for _, a := range cc.Args {
+								if holders[a] {
+									note(t)
+								}
+							}
+						}
+					})
+					// returns that hand the value (or its owner) to the caller are releases too
+					// explore from the success edge of the acquisition
+					var starts []*ssa.BasicBlock
+					if succ, _ := errorEdges(s); len(succ) > 0 {
+						for _, e := range succ {
+							starts = append(starts, e.To)
+						}
+					} else {
+						starts = append(starts, s.Block) // infallible creation: continue in the same block
+					}
+					bad := ""
+					seen := map[*ssa.BasicBlock]bool{}
+					var walk func(b *ssa.BasicBlock, from int)
+					walk = func(b *ssa.BasicBlock, from int) {
+						if bad != "" {
+							return
+						}
+						if ri, ok := releaseBlocks[b]; ok && ri >= from {
+							return // released on this path
+						}
+						last := b.Instrs[len(b.Instrs)-1]
+						if ret, ok := last.(*ssa.Return); ok {
+							for _, res := range ret.Results {
+								if holders[res] {
+									return // handed to the caller
+								}
+							}
+							if k, _ := returnErrOperand(ret, idx); k != "nil" {
+								bad = p.Pos(ret.Pos())
+							}
+							return
+						}
+						for _, su := range b.Succs {
+							if !seen[su] {
+								seen[su] = true
+								walk(su, 0)
+							}
+						}
+					}
+					if covered {
+						r.OK(rule, key, c.Pos(), "a deferred function registered before the acquisition closes what the variable holds")
+						continue
+					}
+					for _, st := range starts {
+						from := 0
+						if st == s.Block {
+							from = s.Idx + 1
+						}
+						seen[st] = true
+						walk(st, from)
+					}
+					if bad != "" {
+						r.Bad(rule, key, c.Pos(), fmt.Sprintf("the %s obtained from %s is dropped on the error return at %s: nothing closes it (or the half-built owner it was put into) on that path, the descriptor / mapping stays until a finalizer runs", typeShort(v.Type()), ck, bad))
+					} else {
+						r.OK(rule, key, c.Pos(), "closed or handed on along every error exit")
+					}
+				}
+			})
+		}
+	}
+}
+
+// acquiresHandle: the call opens an OS handle before it returns — it is a library open call, or a module function from
+// which one is reachable (through resolved callees; a dynamic factory call counts as "may open").
+func acquiresHandle(p *Prog, c *ssa.Call) bool {
+	opens := Keys("os.Open", "os.OpenFile", "os.Create", "os.CreateTemp", "github.com/ncw/directio.OpenFile", "golang.org/x/exp/mmap.Open")
+	if opens(CalleeKey(c)) {
+		return true
+	}
+	var roots []*ssa.Function
+	for _, cal := range p.Callees(c) {
+		roots = append(roots, cal)
+	}
+	if len(roots) == 0 {
+		return true
+	}
+	found := false
+	for _, g := range moduleReach(p, roots) {
+		eachInstr(g, func(s Site) {
+			cc, ok := s.Instr.(*ssa.Call)
+			if !ok {
+				return
+			}
+			if opens(CalleeKey(cc)) {
+				found = true
+			}
+			if cc.Call.StaticCallee() == nil && !cc.Call.IsInvoke() {
+				if _, f, _, isF := loadOfField(cc.Call.Value); isF && strings.Contains(strings.ToLower(f), "factory") {
+					found = true
+				}
+			}
+		})
+	}
+	return found
+}
